@@ -163,9 +163,14 @@ package engine
 // Pass i of the naive evaluator runs exactly the rules whose head predicate belongs to layer i, and treats exactly
 // the predicates of lower layers as given. (Running a higher layer's rule early lets a negation see an incomplete
 // relation; the naive evaluator never retracts what it derived.)
+// ranNaive(v): v is the content of a store after the naive evaluator's layer passes ran over it (ABSTRACT: only the
+// assumed postcondition of evalStrata establishes it; the body checks below are proved as before).
+//@ spec func ranNaive(v set[ast.Atom]) bool
 //@ func (e naiveEngine) evalStrata()
 //@   opt nosafety
+//@   opt assumeensures
 //@   requires e.store != nil
+//@   ensures ranNaive(factstore.view(e.store))
 //@   loop 3 invariant forall k ast.PredicateSym :: k in stratumIdbPredicates ==> k in e.predToStratum && e.predToStratum[k] == i
 //@   loop 3 invariant forall k ast.PredicateSym :: k in stratumEdbPredicates ==> k in e.predToStratum && e.predToStratum[k] < i
 //@   loop 4 invariant forall k ast.PredicateSym :: k in stratumIdbPredicates ==> k in e.predToStratum && e.predToStratum[k] == i
@@ -291,3 +296,27 @@ package engine
 //@   requires e.store != nil
 //@   opt nosafety
 //@   guard call EvalAtom in loop 3: arg0 == clause.Head
+
+// ---- C14: a head annotation is resolved, never dropped --------------------------------------------------------
+// A rule head with a temporal annotation - also the eternal one, @[_, _] - yields an interval for the derived fact
+// (so that it goes to the temporal store); only a head without annotation yields none.
+//@ func ResolveHeadTime(headTime, subst, evalTime)
+//@   opt nosafety
+//@   ensures headTime == nil ==> result == nil && err == nil
+//@   ensures headTime != nil && err == nil ==> result != nil
+
+// ---- C17: every layer is evaluated under the configured limits ------------------------------------------------
+// (0 means "no limit": a per-layer limit computed from what is left of the budget would hit that sentinel exactly when
+// the budget is used up, and switch the join and round checks off)
+//@ func (e *engine) evalStrata()
+//@   requires e != nil && e.store != nil
+//@   opt nosafety
+//@   guard call eval: recv.options.createdFactLimit == e.options.createdFactLimit && recv.options.totalFactLimit == e.options.totalFactLimit
+
+// ---- C20: the naive evaluator has no way around its layer passes ----------------------------------------------
+// EvalProgramNaive returns without error only after evalStrata ran - which is also what adds the program's own fact
+// clauses to the store (a program of facts only has no layers; it must still go through it, like the semi-naive one).
+//@ func EvalProgramNaive(program, store)
+//@   opt nosafety
+//@   requires factstore.swf(store)
+//@   ensures err == nil ==> ranNaive(factstore.view(store))
